@@ -16,6 +16,10 @@ from harness.world import World, build_real
 
 GOOD_PUML = "@startuml\n[r.a] --> [r.b]\n@enduml\n"
 NOTAGS_PUML = "[r.a] --> [r.b]\n"
+PUML_FILES = {"good": GOOD_PUML, "notags": NOTAGS_PUML,
+              "startonly": "@startuml\n[r.a] --> [r.b]\n",                  # truncated file: no end tag
+              "endonly": "[r.a] --> [r.b]\n@enduml\n",
+              "reversed": "@enduml\n[r.a] --> [r.b]\n@startuml\n"}
 
 
 def _outcome(fn):
@@ -67,6 +71,11 @@ def run_episode(spec, uid="E"):
     which = spec["which"]
     h = f"{uid}.H"
     events = [{"k": "new", "h": h, "which": which, "first": True}]
+
+    def definition(a):
+        return [{"name": name, "items": [["regex"] if mf.identifier_is_regex else mf.identifier.split(".") for mf in a[name]]}
+                for name in a._modules_by_layer_name]
+
     tmpdir = None
     excs = {}
     if which == "rule":
@@ -75,11 +84,13 @@ def run_episode(spec, uid="E"):
         obj = LayeredArchitecture()
     elif which == "lrule":
         obj = LayerRule()
-        arch = LayeredArchitecture().layer("L1").containing_modules(["r.a"]).layer("L2").containing_modules(["r.b"])
+        arch = (LayeredArchitecture().layer("L1").containing_modules(["r.a"]).layer("L2").containing_modules(["r.b"])
+                .layer("L3").containing_modules("r.c"))
+        events[0]["basis"] = definition(arch)
     else:
         obj = DiagramRule(should_only_rule=spec.get("should_only", True))
         tmpdir = tempfile.mkdtemp(prefix="verif-puml-", dir="/dev/shm" if os.path.isdir("/dev/shm") else None)
-        for name, text in (("good", GOOD_PUML), ("notags", NOTAGS_PUML)):
+        for name, text in PUML_FILES.items():
             with open(os.path.join(tmpdir, name + ".puml"), "w") as f:
                 f.write(text)
     try:
@@ -107,7 +118,7 @@ def run_episode(spec, uid="E"):
             elif which == "lrule" and m == "are_named":
                 layers = list(c["layers"])
                 arg = layers if c.get("list") or len(layers) != 1 else layers[0]
-                logged.update({"layers": layers, "list": isinstance(arg, list), "defined": ["L1", "L2"]})
+                logged.update({"layers": layers, "list": isinstance(arg, list), "defined": ["L1", "L2", "L3"]})
                 fn = lambda: obj.are_named(arg)
             elif which == "diag" and m == "from_file":
                 logged["file"] = c["file"]
@@ -121,6 +132,8 @@ def run_episode(spec, uid="E"):
             if exc:
                 excs[exc] = excs.get(exc, 0) + 1
             events.append({"k": "call", "h": h, "c": logged, "out": out, "exc": exc})
+            if which == "lrule":
+                events.append({"k": "basis", "h": h, "layers": definition(arch)})
             if which == "arch" and spec.get("show", True):
                 layers = []
                 text = str(obj)
@@ -140,6 +153,8 @@ def run_episode(spec, uid="E"):
                 o, exc = o
                 excs[exc] = excs.get(exc, 0) + 1
             events.append({"k": "assert", "h": h, "arch": w.json(), "out": o, "exc": exc})
+            if which == "lrule":
+                events.append({"k": "basis", "h": h, "layers": definition(arch)})
     finally:
         if tmpdir:
             import shutil
